@@ -248,7 +248,8 @@ def thorough_extras(pid, propmod, root, ctx):
     for sid, verdict, info in sresults:
         ssummary[verdict] = ssummary.get(verdict, 0) + 1
         sdetail.append({"seed": sid, "verdict": verdict, "info": info})
-        if verdict in ("missed", "crash"):
+        # a confirmed behaviour-breaking patch must be REPORTED (exit 1); ending undecided (exit 2) is not enough
+        if verdict in ("missed", "crash", "analysis-error"):
             failures.append("seeded/%s: %s (%s)" % (sid, verdict, info))
     bsummary = {}
     bdetail = []
